@@ -46,6 +46,8 @@ def transfers(c):
                                        "fo": pos % 3 == 0, "fault": "write_rejected", "pos": pos, "code": code,
                                        "prefetch": False}, False))
                 for prefetch in (True, False):
+                    if code == 1:
+                        continue            # EOF on a read = "the file ends here": enumerated below as read_eof
                     ops.append((size, {"op": "get", "size": size, "confirm": False, "callback": pos % 2 == 1,
                                        "fo": pos % 3 == 1, "fault": "read_failed", "pos": pos, "code": code,
                                        "prefetch": prefetch, "maxc": [0, 2, 0, 5][pos % 4]}, pos % 5 == 4))
